@@ -11,7 +11,8 @@ EXPLANATION = (
     'every size including 1x1 and 0x0); the elimination helpers return only Successful or NumericalIssue; (D2) every division '
     'by a pivot (1x1 elimination, 2x2 block solve, final 1x1 block) is dominated by the exact zero test of that pivot / '
     'determinant whose failing arm reports NumericalIssue, and compute() leaves the elimination loop as soon as the status is not '
-    'Successful; (D3) every library call site of BKLDLT::compute (3: the dense symmetric shift-solve wrapper and the two dense '
+    'Successful; a diagonal entry moved to the pivot position by an interchange is tested against alpha*sigma first (third '
+    'Bunch-Kaufman test); (D3) every library call site of BKLDLT::compute (3: the dense symmetric shift-solve wrapper and the two dense '
     'shift-invert helpers) reads info() on the same object on every path and turns a non-success into std::invalid_argument '
     '(directly or through a returned flag that every caller tests and throws on); (D4) copy_data reads only the named triangle: '
     'the Lower arm reads (i, j) with i >= j, the other arm reads conj(j, i), and the two arms are selected by uplo == Lower. '
@@ -163,6 +164,41 @@ def status_monotone(ctx, rule='failure-status-not-overwritten'):
                   'after a singular pivot block the status can be overwritten: ' + hit[-1], path=hit)
 
 
+def pivot_candidate_tested(ctx, rule='interchanged-pivot-is-tested'):
+    """Bunch-Kaufman: a diagonal entry A[r,r] brought to the pivot position by an interchange (r != k) is a legitimate 1x1
+    pivot only if its magnitude was compared with alpha*sigma.  Structural necessary condition: every `pivoting_1x1(k, r)` with
+    r != k is dominated by a branch whose condition reads diag_coeff(r).  (Without it the 2x2 alternative is taken for matrices
+    where that block is exactly singular although the matrix is not.)"""
+    n = 0
+    for fn in ctx.F.insts('Spectra::BKLDLT::permutate_mat'):
+        calls = [x for x in fn.walk() if x['k'] == 'CXXMemberCallExpr' and x.get('callee') == 'pivoting_1x1']
+        inter = []
+        for c in calls:
+            a = [sym(fn, y, inline=False) for y in fn.call_args(c)]
+            if len(a) == 2 and a[0] != a[1]:
+                inter.append((c, a))
+        if not inter:
+            ctx.fail(rule, 'BKLDLT::permutate_mat', fn.qname, 'no 1x1 pivot with interchange exists: the pivoting strategy has only two of the three Bunch-Kaufman outcomes')
+            continue
+        for c, a in inter:
+            n += 1
+            ok = False
+            for i in fn.walk():
+                if i['k'] != 'IfStmt' or not fn.within(c, i['then']):
+                    continue
+                reads = [y for y in fn.walk(i['cond']) if y['k'] == 'CXXMemberCallExpr' and y.get('callee') == 'diag_coeff' and
+                         sym(fn, fn.call_args(y)[0], inline=False) == a[1]]
+                if reads:
+                    ok = True
+            # the branch must also be live: its condition must not be the comparison of the OLD pivot that the enclosing
+            # branch has already refuted (contradiction rule): here we only require that the tested entry is the new pivot
+            ctx.check(ok, rule, 'BKLDLT::permutate_mat', fn.qname,
+                      'pivoting_1x1(%s, %s) is guarded by a test of diag_coeff(%s)' % (show(a[0]), show(a[1]), show(a[1])) if ok else
+                      'the entry A[%s,%s] is moved to the pivot position without its magnitude ever being tested (the guarding condition reads another entry)' % (show(a[1]), show(a[1])))
+    if n < 2:
+        raise AnalysisBroken('only %d interchange sites analysed' % n)
+
+
 def callers_check_status(ctx, rule='factorization-status-checked'):
     sites = []
     for fn in ctx.F.concrete():
@@ -308,5 +344,6 @@ def _loop_multi(fn, loop):
 def run(ctx):
     status_assigned(ctx)
     pivot_guards(ctx)
+    pivot_candidate_tested(ctx)
     callers_check_status(ctx)
     copy_data_triangle(ctx)
